@@ -44,6 +44,10 @@ CHECKS = {
              text="At most one resolver call inside the resolver; at quiescence with context and references either a call is in progress or the latest result is in the target containers and was delivered to every held callback (late references included); released() leads to a fresh resolution; AddRef/Release/SetContext (nil callback included) neither panic nor block.", ref="§3 C09"),
  "C10": dict(engine="refcount", technique="same driver with Wait/Resolve/ResolveWithReleased/Access consumers; RefCountP consumer conditions (HeldRel, released-callback once, Access value/cancel/result rules)",
              text="Values returned by Wait/Resolve are not released while the reference is held unless invalidated (then the released callback fires exactly once); Access calls back with a value current at its look, its callback context is cancelled on invalidation and the callback is re-invoked with the replacement; Access returns only results of non-invalidated invocations. Invalidation is a separately schedulable step at every point of the consumer's call (Access's private Broadcast is hooked).", ref="§3 C10"),
+ "C11": dict(engine="promise", technique="TLA+ monitor PromiseP (single winner, awaiter results, AwaitStuck at quiescence, spin) checked by TLC on Promise.tla (Promise: swap/write/close as separate steps; PromiseContainer await loops) and on traces of the real code under TLC edge-cover + seeded random schedules; busy loops detected deterministically as an actor passing its lock hook 50 times without an event",
+             text="Exactly one SetResult wins and every awaiter that returns by result returns the winner's pair (Atomic hooks make 'done flag set, fields not yet written, channel not yet closed' schedulable states); at exact quiescent points no awaiter is blocked with its context cancelled, its channel fired or a result available; container awaiters follow replacements and return results whose error is context.Canceled. Open finding F9 (own channel ignored once a promise is set) is listed in known_findings.json.", ref="§3 C11"),
+ "C16": dict(engine="once", technique="TLA+ monitor OnceP checked by TLC on Once.tla / Memo.tla and on traces of the real promise.Once / memo.MemoizeFunc under TLC edge-cover + seeded random schedules with a harness-owned function (ok / error / ctx error / late success)",
+             text="Never two function calls at once, no call after a success and every later Resolve returns that value, a failure is retried, a cancelled caller gets Canceled without blocking the others, no live caller blocked at quiescence unless a call is active; MemoizeFunc calls once and every caller gets that result.", ref="§3 C16"),
 }
 NOT_YET = "not built yet in this session (work in progress; see DESIGN.md §6 build order)"
 
@@ -78,6 +82,8 @@ m = {
    {"name": "broadcast", "path": "tools/fam_broadcast.py", "serves_properties": ["C03"], "kind_free_text": "TLC model checking of specs/broadcast + controlled replay/trace validation (harness/drivers/broadcast.go)"},
    {"name": "ccontainer", "path": "tools/fam_ccontainer.py", "serves_properties": ["C15"], "kind_free_text": "TLC model checking of specs/ccontainer + controlled replay/trace validation (harness/drivers/ccontainer.go)"},
    {"name": "refcount", "path": "tools/fam_refcount.py", "serves_properties": ["C08", "C09", "C10"], "kind_free_text": "TLC model checking of specs/refcount + controlled replay/trace validation (harness/drivers/refcount.go)"},
+   {"name": "promise", "path": "tools/fam_promise.py", "serves_properties": ["C11"], "kind_free_text": "TLC model checking of specs/promise + controlled replay/trace validation (harness/drivers/promise.go)"},
+   {"name": "once", "path": "tools/fam_once.py", "serves_properties": ["C16"], "kind_free_text": "TLC model checking of specs/once + controlled replay/trace validation (harness/drivers/once.go)"},
    {"name": "race", "path": "tools/fam_race.py", "serves_properties": ["C13"], "kind_free_text": "free-running client programs under the Go race detector (harness/race_test.go)"},
    {"name": "routine", "path": "tools/fam_routine.py", "serves_properties": ["C04", "C05", "C14"], "kind_free_text": "TLC model checking of specs/routine + controlled replay/trace validation (harness/drivers/routine.go)"},
  ],
